@@ -82,6 +82,9 @@ def entryState : Nat → List (Op × Bool) → Option Bool
 def runOutcome (fault : Option EventId) (plan : List EventId) (s : Step) : Bool :=
   s.events == cutIds fault plan && s.exc == (if hitsIds fault plan then some .user else none)
 
+/-- callbacks of a construction that precede its validators step -/
+def preGuard (e : EventId) : Bool := e.kind != "validator" && e.kind != "post"
+
 /-- `prev`: the switch position observed before the step (`true` = validators run) -/
 def stepOk (c : Case) (hist : List (Op × Bool)) (prev : Bool) (op : Op) (s : Step) : Bool :=
   -- both accessor pairs show the same cell, as real bools
@@ -110,7 +113,12 @@ def stepOk (c : Case) (hist : List (Op × Bool)) (prev : Bool) (op : Op) (s : St
      s.events == []
    | .construct k =>
      (match c.classes[k]? with
-      | some cls => s.run == B3.ofBool prev && runOutcome c.fault (constructPlan cls prev) s
+      -- validators iff the switch is on when the validators step is reached: the position before the call,
+      -- moved by the body of the probing callback once per call of it among the observed callbacks that
+      -- come before that step (everything that is neither a validator nor the post-init hook)
+      | some cls => s.run == B3.ofBool prev &&
+          runOutcome c.fault (constructPlan cls
+            (iterB (probeCount c (s.events.filter preGuard)) (bodyStep c) prev)) s
       | none => true)        -- no such class: excluded by `wf`
    | .assign k i _ =>
      (match c.classes[k]? with
@@ -132,15 +140,19 @@ def specGo (c : Case) : List (Op × Bool) → Bool → List Op → List Step →
      | none => false)
   | _, _, _, _ => false
 
+/-- the runs of the body during one operation: each satisfies the step rules (as a history without a probing
+    callback) from where the previous run left the switch -/
+def nestedRuns (c : Case) : Bool → List (List Step) → Bool
+  | _, [] => true
+  | cur, inv :: rest => specGo { c with probe := none } [] cur c.body inv && nestedRuns c (bodyStep c cur) rest
+
 /-- nested observations: the probing callback's body ran once per call of that callback during the operation,
     and each run satisfies the step rules *starting from the switch position observed before the operation* —
     no operation moves the switch on the way to its callbacks -/
 def nestedOk (c : Case) : Bool → List Op → List Step → List (List (List Step)) → Bool
   | _, [], [], [] => true
   | prev, _ :: ops, s :: steps, n :: ns =>
-    (match c.probe with
-     | none => n == []
-     | some p => n.length == s.events.count p && n.all (fun inv => specGo c [] prev c.body inv)) &&
+    (n.length == probeCount c s.events && nestedRuns c prev n) &&
     (match s.run.toBool? with
      | some r => nestedOk c r ops steps ns
      | none => false)
@@ -164,10 +176,18 @@ def opOk (c : Case) : Op → Bool
 def wf (c : Case) : Bool :=
   (bal 0 c.ops).isSome &&
   c.ops.all (opOk c) &&
-  -- a callback body closes the blocks it opens and leaves the switch as it found it
+  -- a callback body closes the blocks it opens; it may leave the switch flipped unless the probing callback
+  -- can run during one of the history's assignments (the hooks of an assignment each read the switch for
+  -- themselves; flips between them are not modelled)
   (bal 0 c.body == some 0 && c.body.all (opOk c) &&
-   (runSt { run := true, stack := [] } c.body).run == true &&
-   (runSt { run := false, stack := [] } c.body).run == false) &&
+   ((bodyStep c true == true && bodyStep c false == false) ||
+    c.ops.all (fun op => match op, c.probe with
+      | .assign k i _, some p => (match c.classes[k]? with
+        | some cls => (match cls.fields[i]? with
+          | some f => !(assignPlan cls true f).contains p
+          | none => true)
+        | none => true)
+      | _, _ => true))) &&
   (match c.fault with
    | none => true
    | some e => e.kind == "validator") &&
